@@ -500,6 +500,7 @@ def shard(ctx: Ctx) -> None:
                 base = {"op": name, "addr": A, "handle": H1}
                 one(ctx, {"ops": [base], "replies": [["conn", A, 0, reason]]}, "drop-reason-codes")
     cleanup_inside_state_callback(ctx)
+    operation_started_inside_state_callback(ctx)
     # scale: dozens of operations outstanding at once on distinct handles of two peripherals, answered in a shuffled order, one per chunk or
     # all in one chunk; a few never answered (timeout), one peripheral dropping in the middle
     for n_ops in ((24, 60, 150) if ctx.thorough else (24, 60)):
@@ -632,7 +633,121 @@ def cleanup_inside_state_callback(ctx: Ctx) -> None:
                         res.violation("C16/device_connect/state-callback", f"state callback saw {states}", case)
 
 
+def operation_started_inside_state_callback(ctx: Ctx) -> None:
+    """The application reacts to the connection-state callback by starting the next Bluetooth operation AT ONCE (an eager task, as Home Assistant
+    creates them): the operation writes its request and subscribes - also for BluetoothDeviceConnectionResponse - while the connection is still
+    dispatching the very response that triggered the callback.  That response is not the new operation's answer; the operation completes with its
+    own answer, other pending operations and the API connection do not notice."""
+    from aioesphomeapi import api_pb2 as pb
+
+    res = ctx.res
+    idx = 0
+    for trigger in ("connected", "dropped"):
+        for op in ("read(A)", "services(A)", "notify(A)", "connect(B)", "read(B2)", "reconnect(A)"):
+            for same_chunk in (False, True):
+                idx += 1
+                if (op == "reconnect(A)") != (trigger == "dropped") or not ctx.mine(idx):
+                    continue
+                with Sim() as sim:
+                    cfg = DeviceConfig()
+                    for n in ("BluetoothDeviceRequest", "BluetoothGATTReadRequest", "BluetoothGATTNotifyRequest", "BluetoothGATTGetServicesRequest"):
+                        cfg.handlers[n] = lambda c, m: None
+                    dev = sim.device(cfg)
+                    cli = sim.client(keepalive=1e5)
+                    c0 = sim.call("connect", lambda: cli.connect(login=False))
+                    sim.run(until=lambda: c0.done, max_time=sim.clock + 50)
+                    dconn = dev.conn
+                    states: list[Any] = []
+                    inner: dict[str, Any] = {}
+
+                    def start_inner() -> None:
+                        if op == "read(A)":
+                            inner["rec"] = sim.call(op, lambda: cli.bluetooth_gatt_read(A, 3, timeout=5.0), eager=True)
+                        elif op == "read(B2)":
+                            inner["rec"] = sim.call(op, lambda: cli.bluetooth_gatt_read(B, 9, timeout=5.0), eager=True)
+                        elif op == "services(A)":
+                            inner["rec"] = sim.call(op, lambda: cli.bluetooth_gatt_get_services(A), eager=True)
+                        elif op == "notify(A)":
+                            inner["rec"] = sim.call(op, lambda: cli.bluetooth_gatt_start_notify(A, 7, lambda h, d: None, timeout=5.0), eager=True)
+                        elif op == "connect(B)":
+                            inner["rec"] = sim.call(op, lambda: cli.bluetooth_device_connect(B, lambda *a: inner.setdefault("b_states", []).append(a), timeout=5.0), eager=True)
+                        else:
+                            inner["rec"] = sim.call(op, lambda: cli.bluetooth_device_connect(A, lambda *a: inner.setdefault("a2_states", []).append(a), timeout=5.0), eager=True)
+
+                    def on_state(connected: bool, mtu: int, error: int) -> None:
+                        states.append((connected, mtu, error))
+                        if "rec" not in inner and connected == (trigger == "connected"):
+                            start_inner()
+
+                    r_conn = sim.call("device_connect", lambda: cli.bluetooth_device_connect(A, on_state, timeout=5.0))
+                    r_b = sim.call("read(B)", lambda: cli.bluetooth_gatt_read(B, 1, timeout=5.0))
+                    sim.run_for(0.001)
+                    first = [pb.BluetoothDeviceConnectionResponse(address=A, connected=True, mtu=50)]
+                    if trigger == "dropped":
+                        dconn.send_msg(first[0])
+                        sim.run(until=lambda: r_conn.done, max_time=sim.clock + 6)
+                        first = [pb.BluetoothDeviceConnectionResponse(address=A, connected=False, error=8)]
+                    answer = {"read(A)": pb.BluetoothGATTReadResponse(address=A, handle=3, data=b"inner"),
+                              "read(B2)": pb.BluetoothGATTReadResponse(address=B, handle=9, data=b"inner"),
+                              "services(A)": pb.BluetoothGATTGetServicesDoneResponse(address=A),
+                              "notify(A)": pb.BluetoothGATTNotifyResponse(address=A, handle=7),
+                              "connect(B)": pb.BluetoothDeviceConnectionResponse(address=B, connected=True, mtu=23),
+                              "reconnect(A)": pb.BluetoothDeviceConnectionResponse(address=A, connected=True, mtu=77)}[op]
+                    msgs = first + [pb.BluetoothGATTReadResponse(address=B, handle=1, data=b"ok")]
+                    if same_chunk:
+                        dconn.outbox = []
+                        for m_ in msgs:
+                            dconn.send_msg(m_)
+                        out, dconn.outbox = dconn.outbox, None
+                        dconn.deliver_items(out, 0.0)
+                    else:
+                        for m_ in msgs:
+                            dconn.send_msg(m_)
+                            sim.run_for(0.001)
+                    sim.run_for(0.01)
+                    started = "rec" in inner
+                    early = started and inner["rec"].done
+                    early_what = (inner["rec"].outcome, repr(inner["rec"].exc)) if early else None
+                    dconn.send_msg(answer)
+                    sim.run(until=lambda: r_b.done and r_conn.done and (not started or inner["rec"].done), max_time=sim.clock + 12)
+                    res.evaluations += 1
+                    res.count("workload/operation-started-inside-state-callback")
+                    res.sig("op-inside-cb", trigger, op, same_chunk)
+                    case = {"kind": "operation-started-inside-state-callback", "trigger": trigger, "op": op, "same_chunk": same_chunk}
+                    st = sim.conns[0].obj.connection_state.name
+                    if sim.harness_errors:
+                        res.inconclusive.append("C16 inside-callback scenario: " + sim.harness_errors[0][-300:])
+                        continue
+                    if not started:
+                        res.inconclusive.append(f"C16 inside-callback scenario: the state callback never reported {trigger}")
+                        continue
+                    tag = op.split("(")[0].replace("re", "", 1) if op == "reconnect(A)" else op.split("(")[0]
+                    rec = inner["rec"]
+                    if st != "CONNECTED":
+                        res.violation("C16/connection-closed", f"API connection state {st} after {op} was started from inside the state callback ({trigger})", case,
+                                      trace=sim.trace(40))
+                    if early:
+                        res.violation(f"C16/{tag}/completed-by-the-triggering-response", f"{op}, started from inside the callback for {type(first[0]).__name__}"
+                                      f"({trigger}), ended {early_what} before its own answer was sent", case, trace=sim.trace(40))
+                    elif rec.outcome != "ok":
+                        res.violation(f"C16/{tag}/inner-operation-failed", f"{op} started from inside the state callback ended {rec.outcome} {rec.exc!r} although the device "
+                                      "answered it", case, trace=sim.trace(40))
+                    elif op.startswith("read") and bytes(rec.result) != b"inner":
+                        res.violation(f"C16/read/wrong-result", f"{op} returned {bytes(rec.result)!r}", case)
+                    elif op == "reconnect(A)" and inner.get("a2_states") != [(True, 77, 0)]:
+                        res.violation("C16/device_connect/state-callback", f"second connect's callback saw {inner.get('a2_states')}", case)
+                    if r_b.outcome != "ok" or bytes(r_b.result) != b"ok":
+                        res.violation("C16/read/disturbed-by-foreign-operation", f"read on peripheral B ended {r_b.outcome} {r_b.exc!r} when an operation was started from inside "
+                                      "A's state callback", case, trace=sim.trace(40))
+                    exp_states = [(True, 50, 0)] if trigger == "connected" else [(True, 50, 0), (False, 0, 8)]
+                    if states[:len(exp_states)] != exp_states or (op != "reconnect(A)" and states != exp_states):
+                        res.violation("C16/device_connect/state-callback", f"state callback saw {states}, expected {exp_states}", case)
+
+
 def replay(spec: dict[str, Any]) -> int:
+    if spec["case"].get("kind") == "operation-started-inside-state-callback":
+        print(spec["what"])
+        return 1
     if spec["case"].get("kind") == "cleanup-inside-state-callback":
         print(spec["what"])
         return 1
